@@ -73,18 +73,6 @@ func ruleC17Sanitise(c *Ctx) {
 				}
 				return out
 			}
-			isSanitise := func(n ast.Node) bool {
-				as, ok := n.(*ast.AssignStmt)
-				if !ok {
-					return false
-				}
-				for j, src := range sanitisedLhs(as) {
-					if src == types.Object(pv) && objOfIdent(info, as.Lhs[j]) == types.Object(pv) {
-						return true
-					}
-				}
-				return false
-			}
 			// clean locals: `indexedName := sanitise(name)`; a query use of one is a discharged obligation of name
 			clean := map[types.Object]bool{}
 			walkOwn(f.Body(), func(n ast.Node) {
@@ -96,6 +84,28 @@ func ruleC17Sanitise(c *Ctx) {
 					}
 				}
 			})
+			isSanitise := func(n ast.Node) bool {
+				as, ok := n.(*ast.AssignStmt)
+				if !ok {
+					return false
+				}
+				for j, src := range sanitisedLhs(as) {
+					if src == types.Object(pv) && objOfIdent(info, as.Lhs[j]) == types.Object(pv) {
+						return true
+					}
+				}
+				// `name = cleanLocal` (also inside a parallel assignment), cleanLocal holding sanitise(name)
+				if len(as.Lhs) == len(as.Rhs) {
+					for j, l := range as.Lhs {
+						if objOfIdent(info, l) == types.Object(pv) {
+							if o := objOfIdent(info, as.Rhs[j]); o != nil && clean[o] {
+								return true
+							}
+						}
+					}
+				}
+				return false
+			}
 			// derived locals (prefix := strings.TrimSuffix(name, "/") + "/") carry the taint
 			derived := map[types.Object]bool{pv: true}
 			for changed := true; changed; {
@@ -422,6 +432,49 @@ func ruleC17RootShapes(c *Ctx) {
 					}
 					return true
 				})
+			}
+			// ... and the base-path view is chosen exactly when the root is not a root spelling: the wrapping call is
+			// conditional on `pathext.IsRoot(root, ..)` being false and on nothing else
+			exact := true
+			for _, st := range arm.Body {
+				ast.Inspect(st, func(m ast.Node) bool {
+					call, ok := m.(*ast.CallExpr)
+					if !ok {
+						return true
+					}
+					fn, ok := calleeObj(info, call).(*types.Func)
+					if !ok || fn.Name() != "NewBasePathFs" || len(call.Args) != 2 || objOfIdent(info, call.Args[1]) != types.Object(rootParam) {
+						return true
+					}
+					seen := false
+					for _, cl := range enclosingCondsFlow(info, cacheFS.Body(), call) {
+						if cl.e.Pos() < st.Pos() && !containsNode(st, cl.e) {
+							// conditions outside the arm (none today)
+						}
+						e, pos := ast.Unparen(cl.e), cl.pos
+						for {
+							if u, ok := e.(*ast.UnaryExpr); ok && u.Op == token.NOT {
+								e, pos = ast.Unparen(u.X), !pos
+								continue
+							}
+							break
+						}
+						if c2, ok := e.(*ast.CallExpr); ok && calleeObj(info, c2) == types.Object(isRoot.Obj) && len(c2.Args) > 0 && objOfIdent(info, c2.Args[0]) == types.Object(rootParam) && !pos {
+							seen = true
+							continue
+						}
+						exact = false
+					}
+					if !seen {
+						exact = false
+					}
+					return true
+				})
+			}
+			if consults && base && !exact {
+				c.bad(rule, cacheFS, "arm "+arm.Labels[0].Name()+" exact", arm.Clauses[0].Pos(), "the base-path view of this cache type is not chosen exactly when pathext.IsRoot(root) is false (a further condition, e.g. on the root being absolute, takes part): archives whose members live under a named absolute directory are then served un-rebased, and every path below the root resolves to nothing")
+			} else if consults && base {
+				c.ok(rule, cacheFS, "arm "+arm.Labels[0].Name()+" exact", arm.Clauses[0].Pos(), true, "the base-path view is chosen exactly when the root is not a root spelling")
 			}
 			c.verdictIf(consults && base, rule, cacheFS, "arm "+arm.Labels[0].Name(), arm.Clauses[0].Pos(),
 				"chooses between the plain view and a base-path view at root via pathext.IsRoot", "this cache type does not wrap a non-root archive root in a base-path view (or does not consult pathext.IsRoot): members of archives rooted at a named directory would be unreachable")
